@@ -72,12 +72,13 @@ Definition lev_row (t : lir) (sh lit : Z) (G : list Z) : list Z :=
   map (fun p => oc (leval (env2 (fst p) (snd p)) t)) (prs sh lit G).
 Definition vev_row (t : vtemplate) (sh lit : Z) (G : list Z) : list Z :=
   map (fun p => oc (vrun [("%2"%string, enc (snd p)); ("%1"%string, enc (fst p))] t)) (prs sh lit G).
-(* x ** y without ever computing an astronomically large power (|x| >= 2 and y > 256 cannot be representable) *)
+(* x ** y without ever computing an astronomically large power: |x| >= 2^L with L = log2 |x|, so |x^y| >= 2^(L*y);
+   if L*y >= 257 the power is not representable in any type *)
 Definition pow_safe (T : nty) (x y : Z) : outcome :=
   if y <? 0 then Revert
   else if Z.abs x <=? 1
        then chk T (if x =? 0 then (if y =? 0 then 1 else 0) else if x =? 1 then 1 else if Z.even y then 1 else -1)
-       else if 256 <? y then Revert else chk T (x ^ y).
+       else if 257 <=? Z.log2 (Z.abs x) * y then Revert else chk T (x ^ y).
 Definition pspec_row (T : nty) (sh lit : Z) (G : list Z) : list Z :=
   map (fun p => oc (enc_out (pow_safe T (fst p) (snd p)))) (prs sh lit G).
 Definition nest_row (T : nty) (G : list Z) : list Z :=
@@ -98,33 +99,9 @@ def pairs(sh, lit, g):
 
 # ------------------------------------------------------------------ Coq builds (two independent chains)
 def build_chain(ctx, files, deps, res, key):
-    """Content-keyed cached build of a chain that depends on `deps` (already built).  Mirrors
-    Ctx.coq_build_cached but with external dependencies, so the legacy and venom chains run concurrently."""
-    done = [COQ / d for d in deps]
-    for f in files:
-        p = COQ / f
-        hits = coqrun.forbidden_tokens(p)
-        if hits:
-            ctx.violation("gate", f"forbidden construct in {f}", {"hits": hits[:10]})
-            res[key] = {"ok": False, "file": str(f), "failed_lemma": None, "out": str(hits)}
-            return
-        r = coqrun.coqc_cached(p, done, timeout=900)
-        names = coqrun.obligations(p)
-        ctx.coq_files.append(str(f))
-        ctx.obligation_names += [f"{Path(f).stem}.{n}" for n in names]
-        ctx.extra.setdefault("reused_vo", [])
-        if r.get("reused"):
-            ctx.extra["reused_vo"].append(str(f))
-        if not r["ok"]:
-            if r["failed_lemma"] in names:
-                ctx.discharged += names.index(r["failed_lemma"])
-            res[key] = {"ok": False, "file": r["file"], "failed_lemma": r["failed_lemma"], "out": r["out"][-3000:]}
-            return
-        ctx.discharged += len(names)
-        ctx.assumptions_out += coqrun.parse_assumptions(r["out"])
-        done.append(p)
-    ctx.checker_cmds.append("coqc -Q coq Verif " + " ".join(str(f) for f in files) + " (content-keyed reuse)")
-    res[key] = {"ok": True}
+    """Content-keyed cached build (Ctx.coq_build_cached) of one Gen/Tie/Props chain; the chains are independent and
+    run concurrently."""
+    res[key] = ctx.coq_build_cached(files, deps=deps)
 
 
 # ------------------------------------------------------------------ (1) template differential / Search
@@ -247,6 +224,15 @@ def probe_source(ty, with_lits):
     src.append(f"@external\ndef narrow(x: {t}, y: {t}) -> {t}:\n    assert x >= {lit_src(ty, lo // 2)}\n"
                f"    assert x <= {lit_src(ty, hi // 2)}\n    z: {t} = x + x\n    return z - y\n")
     fns.append(("narrow", "narrow", 0, 0))
+    # two-sided branch guards, then checked arithmetic that overflows exactly at the guard boundary: the venom range
+    # analysis may only drop the clamp if its edge refinement is exact
+    ga, gb = lo + (hi - lo) // 25 + 3, hi - (hi - lo) // 3 - 5
+    src.append(f"@external\ndef guard(x: {t}, y: {t}) -> {t}:\n    if x < {lit_src(ty, ga)}:\n        return y\n"
+               f"    if x > {lit_src(ty, gb)}:\n        return y\n    return x + {lit_src(ty, hi - gb + 1)}\n")
+    fns.append(("guard", "guard", 0, (ga, gb, hi - gb + 1)))
+    src.append(f"@external\ndef guards(x: {t}, y: {t}) -> {t}:\n    if x < {lit_src(ty, ga)}:\n        return y\n"
+               f"    if x > {lit_src(ty, gb)}:\n        return y\n    return x - {lit_src(ty, ga - lo + 1)}\n")
+    fns.append(("guards", "guards", 0, (ga, gb, ga - lo + 1)))
     if with_lits:
         for li, v in enumerate(glue_lits(ty)):
             ls = lit_src(ty, v)
@@ -264,7 +250,8 @@ def probe_source(ty, with_lits):
             for bi, a in enumerate(pb):
                 src.append(f"@external\ndef powb_{bi}(y: {t}) -> {t}:\n    return {'(' + str(a) + ')' if a < 0 else a} ** y\n")
                 fns.append((f"powb_{bi}", "APow", 1, a))
-            for ei, e in enumerate([e for e in (2, 3, 8, 8 * k - 1) if e <= hi]):
+            vbits = 8 * k - (1 if s else 0)
+            for ei, e in enumerate([e for e in (2, 3, 7, vbits) if e <= hi and e <= vbits]):
                 src.append(f"@external\ndef powe_{ei}(x: {t}) -> {t}:\n    return x ** {e}\n")
                 fns.append((f"powe_{ei}", "APow", 2, e))
     return "\n".join(src), fns
@@ -277,6 +264,8 @@ def glue_differential(ctx, tys, cfgs, size, with_lits=True):
     imports = COQ_PRELUDE
     for i, ty in enumerate(tys):
         imports += f"Definition G{i} := {zlist(grids[ty])}.\n"
+    imports += ("Definition guard_row (T : nty) (op : aop) (A B C : Z) (P : list (Z * Z)) : list Z :=\n"
+                "  map (fun p => oc (enc_out (if (fst p <? A) || (B <? fst p) then Val (snd p) else arith_spec T op (fst p) C))) P.\n")
     imports += ("Definition narrow_row (T : nty) (lo hi : Z) (G : list Z) : list Z :=\n"
                 "  map (fun p => oc (enc_out (if (fst p <? lo) || (hi <? fst p) then Revert else\n"
                 "     match arith_spec T AAdd (fst p) (fst p) with Val v => arith_spec T ASub v (snd p) | o => o end)))\n"
@@ -298,7 +287,12 @@ def glue_differential(ctx, tys, cfgs, size, with_lits=True):
             sels = {sig.split("(")[0]: int(h, 16).to_bytes(4, "big") for sig, h in out["method_identifiers"].items()}
             lo, hi = bounds(ty[0], ty[1])
             for fn, aop, sh, lit in fns:
-                cs = pairs(sh, lit, grids[ty])
+                if aop in ("guard", "guards"):
+                    ga, gb, gc = lit
+                    xs = sorted({v for v in (ga - 1, ga, ga + 1, gb - 1, gb, gb + 1, lo, hi, (ga + gb) // 2) if lo <= v <= hi})
+                    cs = [(x, 1) for x in xs]
+                else:
+                    cs = pairs(sh, lit, grids[ty])
                 sel = sels[fn]
                 if sh == 1:
                     datas = [sel + word(y) for _, y in cs]
@@ -316,6 +310,10 @@ def glue_differential(ctx, tys, cfgs, size, with_lits=True):
                     spec = f"narrow_row {X.nty(*ty)} {X.zl(lo // 2)} {X.zl(hi // 2)} G{gi}"
                 elif aop == "APow":
                     spec = f"pspec_row {X.nty(*ty)} {sh} {X.zl(lit)} G{gi}"
+                elif aop in ("guard", "guards"):
+                    pl = "[" + "; ".join(f"({X.zl(x)}, {X.zl(y)})" for x, y in cs) + "]"
+                    spec = (f"guard_row {X.nty(*ty)} {'AAdd' if aop == 'guard' else 'ASub'} {X.zl(lit[0])} {X.zl(lit[1])} "
+                            f"{X.zl(lit[2])} {pl}")
                 else:
                     spec = f"spec_row {X.nty(*ty)} {aop} {sh} {X.zl(lit)} G{gi}"
                 g = groups.setdefault((ty, fn), {"spec": spec, "cs": cs, "runs": []})
@@ -626,7 +624,8 @@ def quick_glue_configs():
             Config(False, "none", "london"), Config(True, "O3", "cancun")]
 
 
-def run(ctx):
+def generate_and_build(ctx):
+    """regenerate every Gen*.v from the current tree and build (with content-keyed reuse) all chains"""
     t0 = time.time()
     # ---- regenerate templates from the current tree
     gen_err = None
@@ -696,6 +695,22 @@ def run(ctx):
             f"convert-legacy={bcl['ok']} convert-venom={bcv['ok']} pow-legacy={bpl['ok']} pow-venom={bpv['ok']}")
     if all(b["ok"] for b in (bl, bv, bcl, bcv, bpl, bpv)):
         ctx.extra["syntactic_matches"] = len(ltempl) + len(vtempl) + 130 + len(lconv) + len(vconv) + len(lpow) + len(vpow)
+
+    return dict(gen_err=gen_err, ltempl=ltempl, vtempl=vtempl, lconv=lconv, vconv=vconv, vextra=vextra, lpow=lpow, vpow=vpow,
+                b0=b0, bl=bl, bv=bv, bcl=bcl, bcv=bcv, bpl=bpl, bpv=bpv)
+
+
+def prebuild(ctx):
+    """Called by setup_cmd: generate and compile once so that the checks reuse byte-identical inputs."""
+    generate_and_build(ctx)
+
+
+def run(ctx):
+    t0 = time.time()
+    g = generate_and_build(ctx)
+    gen_err, ltempl, vtempl, lconv, vconv, vextra, lpow, vpow = (g[k] for k in
+        ("gen_err", "ltempl", "vtempl", "lconv", "vconv", "vextra", "lpow", "vpow"))
+    b0, bl, bv, bcl, bcv, bpl, bpv = (g[k] for k in ("b0", "bl", "bv", "bcl", "bcv", "bpl", "bpv"))
 
     # ---- correspondence / search
     found = False
